@@ -736,7 +736,13 @@ impl<'a, 'b> H<'a, 'b> {
                     slots_of(v)
                         .iter()
                         .filter(|(sf, _, _)| *sf == f)
-                        .all(|(_, st, _)| *st == w.stamp || *st <= w.seen_before)
+                        .all(|(_, st, val)| {
+                            // the write itself (same stamp and same content) or something the
+                            // node had been shown before it made the write
+                            let same = *st == w.stamp
+                                && val.as_ref().map(|b| String::from_utf8_lossy(b).into_owned()) == w.value;
+                            same || *st <= w.seen_before
+                        })
                 })
             });
             if others_ok != Some(true) {
